@@ -249,6 +249,25 @@ CHECKS["C07"] = dict(
           "tools/props/c07.py; Triangle (orientation of boundary edges, no Steiner points under -Y) validated per mesh, not "
           "proved; air-gap-element branch not modelled."),
     technique="Coq proof over an executable model of the periodic pairing + bit-exact PSLG/.pbc correspondence + geometric oracle + solver-output check")
+CHECKS["C17"] = dict(
+    category="proof",
+    text=("The Lua command table (all 746 addFunction registrations of the four Lua*Commands.cpp) is regenerated into "
+          "gen/LuaTable.v on every run; proved over it by vm_compute: both spellings of every command share a handler, names are "
+          "registered once, every documented builder command of every physics is registered with a real handler. Over a "
+          "command-semantics model (LuaCmds.v): build (script_of p) = Some p for every well-formed problem p and from any "
+          "previous document state, newdocument / open replace the document (10 theorems, closed under the global context). "
+          "Tie, which decides most of the property: generated problems of the three physics (planar / axisymmetric, six units, "
+          "arcs, circuits, magnets, B-H curves, exterior region) are built by one Lua script (both spellings, detours through "
+          "modify / delete / setgroup, several problems per script) and written directly as files; required: same meaning of the "
+          "saved file (independent reader), mesh files byte-identical, solution parts identical, ~2200 queried values equal to "
+          "1e-12, select commands return the entity aimed at, return values in documented order and units; the Coq term of each "
+          "problem renders, command for command, the script that was run. Partial: the real handlers are tied to the model by "
+          "that run-time correspondence only."),
+    design_ref="DESIGN.md §5 C17, §9.6",
+    note=("Trusted: Coq kernel; regex translator tools/translate_lua.py; framework writer tools/femgen.py and reader tools/femfile.py; "
+          "the model abstracts property payloads, nearest-handle selection and automatic splitting. Two known findings (C17-2 depth "
+          "unit of getprobleminfo, C17-3 .edge order depends on heap layout in bundled Triangle), two fixed defects."),
+    technique="Coq proof over a regenerated command table and a command-semantics model + end-to-end script-vs-file differential runs")
 PENDING = {}
 def main():
     props = [json.loads(l) for l in open(os.path.join(V, "properties.jsonl"))]
